@@ -542,7 +542,7 @@ func (fr *frame) applyContract(fc *FuncContract, display string, names []string,
 	for _, r := range fc.Requires {
 		v := env.trBool(r.Expr)
 		label := display + ":" + r.Label
-		if c.trustPre[pkgNameOf(fc.Pkg)] {
+		if c.trustPre[pkgNameOf(fc.Pkg)] || c.trustPre[pkgNameOf(fc.Pkg)+"."+fc.Key] {
 			// opt trustpre=<pkg>: the caller relies on the dependency's own invariant
 			fr.assumeR(v)
 			c.assumed["precondition ["+r.Label+"] of "+display+" is assumed at its call sites in "+fr.name+" (opt trustpre: the invariant of that package is the subject of its own property)"] = true
